@@ -10,6 +10,7 @@ Log == ndJsonDeserialize(IOEnv.TRACE)
 VARIABLES l,       \* next line of the log
           idOf,    \* k -> id returned by request()
           qn       \* k -> labels of the name asked for
+WholeLimit == 4096     \* UdpSocket's receive buffer: datagrams up to this size must be processed whole
 ASSUME TLCSet(42, 0)
 tvars == <<vars, l, idOf, qn>>
 
@@ -54,7 +55,10 @@ TCancel == /\ IsEv("Cancel")
 TReply == /\ IsEv("Reply")
           /\ LET d == Ev.d
                  k == IF Len(d) >= 2 THEN KOf(U16(d, 0)) ELSE 0
-                 c == Classify(d, IF k = 0 THEN <<>> ELSE qn[k])
+                 \* a datagram longer than WholeLimit may be cut by the receiver at any length >= WholeLimit: outcome open
+                 \* (as for malformed ones), but whatever is reported must be encoded in the datagram as sent
+                 c == IF Len(d) > WholeLimit THEN [cls |-> "malformed", id |-> 0, res |-> NoRes]
+                      ELSE Classify(d, IF k = 0 THEN <<>> ELSE qn[k])
              IN Reply(Ev.s, k, c.cls, Exact(c.res)) /\ Encoded(d)
           /\ UNCHANGED <<idOf, qn>> /\ Post
 TTick == IsEv("Tick") /\ TickOf({Ev.cbs[i].k : i \in 1..Len(Ev.cbs)} \cap Pending) /\ UNCHANGED <<idOf, qn>> /\ Post /\ NothingReported
